@@ -40,6 +40,7 @@ package request
 //@ defines [auth-fail] err != nil ==> authOK == old(authOK) && authMethod == old(authMethod) && authID == old(authID) && authNonce == old(authNonce) && authArgs == old(authArgs)
 //@ ensures [errkind]   !typeis(err, pool.VerifyFailedError) && !typeis(err, balance.LowBalanceError)
 //@ callreq assemble [verifies-exactly-what-was-named] : arg0 == method && arg1 == pubkey && arg2 == nonce && arg3 == args
+//@ ensures [a-verified-identity-is-a-full-node-id-or-address] {C15} err == nil ==> len(pubkey) >= 42
 //@ modifies authOK, authMethod, authID, authNonce, authArgs, lastJSON, lastAddr
 
 //@ func (NodeRequest).Verify
@@ -47,6 +48,7 @@ package request
 //@ safety on
 //@ ensures [errkind] !typeis(err, pool.VerifyFailedError) && !typeis(err, balance.LowBalanceError)
 //@ callreq assemble [hashes-its-own-fields] : arg0 == r.Method && arg1 == r.NodeID && arg2 == r.Nonce && arg3 == r.ExtraArgs
+//@ ensures [id-length] {C15} err == nil ==> len(r.NodeID) >= 128
 //@ modifies lastJSON
 
 //@ func (AddressRequest).Verify
@@ -55,4 +57,5 @@ package request
 //@ ensures [errkind] !typeis(err, pool.VerifyFailedError) && !typeis(err, balance.LowBalanceError)
 //@ ensures [signer-is-the-named-wallet] err == nil ==> lower(lastAddr) == lower(r.Address)
 //@ callreq assemble [hashes-its-own-fields] : arg0 == r.Method && arg1 == r.Address && arg2 == r.Nonce && arg3 == r.ExtraArgs
+//@ ensures [id-length] {C15} err == nil ==> len(r.Address) == 42
 //@ modifies lastJSON, lastAddr
